@@ -96,6 +96,7 @@ type State struct {
 	condLocks []condLock         // locks held under a condition (CtxMutex.Lock(ctx) == nil)
 	lockIdx  map[string]*Term    // index term of indexed locks held
 	lockAlias map[types.Object]lockAliasT // local pointer variables that alias a lock (&x.locks[i])
+	joiners  map[types.Object][]string    // volatile variable -> wait groups whose Wait makes it stable again
 }
 
 type lockAliasT struct {
@@ -131,6 +132,7 @@ func (s *State) fork() *State {
 		condLocks: s.condLocks[:len(s.condLocks):len(s.condLocks)],
 		lockIdx:  make(map[string]*Term, len(s.lockIdx)),
 		lockAlias: s.lockAlias,
+		joiners:  s.joiners,
 	}
 	for k, v := range s.lockIdx {
 		n.lockIdx[k] = v
@@ -202,13 +204,16 @@ type Unit struct {
 	stale      []string
 	lastSortPi, lastSortInv string
 	elemWrite  int
+	fieldWrite int // >=0 while assigning v.f = x on a struct variable: index of f
 	captured   map[string]bool // symbols standing for captured (outer) variables
+	capturedInit map[*types.Var]*Term
 }
 
 type recorder struct {
 	vars  map[types.Object]bool
 	heaps map[string]bool
 	ghost map[string]bool
+	fieldOnly map[types.Object]map[int]bool // struct variables written only through v.f = x (top-level field indices)
 	elemOnly map[types.Object]bool // slice variables written only through s[i] = v
 	fullVar  map[types.Object]bool
 	refs  map[string][]*Term // heap -> object refs written (when all writes are simple stores)
@@ -267,6 +272,13 @@ func (u *Unit) varSet(st *State, obj types.Object, t *Term) {
 		if u.elemWrite > 0 {
 			if u.recording.elemOnly != nil {
 				u.recording.elemOnly[obj] = true
+			}
+		} else if u.fieldWrite >= 0 {
+			if u.recording.fieldOnly != nil {
+				if u.recording.fieldOnly[obj] == nil {
+					u.recording.fieldOnly[obj] = map[int]bool{}
+				}
+				u.recording.fieldOnly[obj][u.fieldWrite] = true
 			}
 		} else if u.recording.fullVar != nil {
 			u.recording.fullVar[obj] = true
